@@ -497,12 +497,35 @@ pub fn c10(ctx: &mut Ctx, tier: &str, seed: u64) {
     let t = tier_is_thorough(tier);
     for win in [false, true] {
         let e = gen::e(win);
-        let small: Vec<Vec<u8>> = (if win { dom_win_small(tier, seed) } else { dom_unix_small(tier, seed) }).into_iter().filter(|s| well_formed(win, s)).collect();
+        // under the exact marker `\\?\` a `/` is an ordinary byte of a name: such paths are let in as well (C10 speaks
+        // of all paths; only the join-back clause needs a remainder that reads the same as an argument)
+        let wf10 = |s: &[u8]| -> bool {
+            if well_formed(win, s) {
+                return true;
+            }
+            if !win || !s.starts_with(br"\\?\") || !spec::win_complete_prefix(s) {
+                return false;
+            }
+            let f: Vec<u8> = spec::forbidden(true).into_iter().filter(|b| *b != b'/').collect();
+            spec_comps(true, s).iter().all(|c| match c {
+                SComp::Normal(n) => !n.iter().any(|b| f.contains(b)),
+                _ => true,
+            })
+        };
+        let mut small: Vec<Vec<u8>> = if win { dom_win_small(tier, seed) } else { dom_unix_small(tier, seed) };
+        if win {
+            for pre in [&br"\\?\C:\"[..], br"\\?\pics\", br"\\?\UNC\s\h\", br"\\?\UNC\s\h/x\"] {
+                for tl in [&b"d/"[..], b"d/\\f.t", b"a\\d/\\f", b"/", b"/\\a", b"a/b", b"a/b\\c", b"d/\\..\\e"] {
+                    small.push([pre, tl].concat());
+                }
+            }
+        }
+        let small: Vec<Vec<u8>> = small.into_iter().filter(|s| wf10(s)).collect();
         let pairs = gen::pairs_prefixy(&small, win, if t { 30 } else { 6 }, seed);
         for (p, q) in &pairs {
             let rp = format!("strip {} {} {}", e, hex(p), hex(q));
             at(rp.clone());
-            if !well_formed(win, q) {
+            if !wf10(q) {
                 continue;
             }
             let (cp, cq) = (comps(win, p), comps(win, q));
@@ -528,7 +551,9 @@ pub fn c10(ctx: &mut Ctx, tier: &str, seed: u64) {
             if let Some(d) = alias_mismatch(win, p, q) {
                 ctx.fail("answers-depend-on-bytes-only", None, rp.clone(), d);
             }
-            if let Some(r) = &st {
+            // (a remainder with `/` inside a name is read differently as an argument: outside the clause)
+            let rest_has_slash = win && spec_comps(win, p).iter().skip(cq.len()).any(|c| matches!(c, SComp::Normal(n) if n.contains(&b'/')));
+            if let (Some(r), false) = (&st, rest_has_slash) {
                 let j = push_b(win, q, r);
                 // "up to the normalisation that joining onto a verbatim prefix applies"
                 let verb = win && spec::win_decomp(q).any_verbatim();
